@@ -117,6 +117,25 @@ def templates():
     T.append(('O-O scission by decrease', [('O', None), ('O', None)],
               [(1, 0, 'single')],
               [('dec', 0, 1), ('rad+', 0), ('rad+', 1)]))
+    # edit sequences that do not commute (the order written is the order
+    # applied)
+    T.append(('break double then form single on the same pair',
+              [('C', None), ('C', None)], [(1, 0, 'double')],
+              [('break', 0, 1, 'double'), ('form', 0, 1, 'single'),
+               ('rad+', 0), ('rad+', 1)]))
+    T.append(('set radicals to 2 then decrease',
+              [('C', '.'), ('H', None)], [(1, 0, 'single')],
+              [('radset', 0, 2), ('rad-', 0)]))
+    T.append(('increase then modify to triple',
+              [('C', ':.'), ('C', ':.')], [(1, 0, 'single')],
+              [('inc', 0, 1), ('modify', 0, 1, 'triple'), ('rad-', 0),
+               ('rad-', 0), ('rad-', 0), ('rad-', 1), ('rad-', 1),
+               ('rad-', 1)]))
+    T.append(('break C-H then form C-H elsewhere (1,2-shift, ordered)',
+              [('C', '.'), ('C', None), ('H', None)],
+              [(1, 0, 'single'), (2, 1, 'single')],
+              [('rad+', 1), ('break', 1, 2, 'single'), ('form', 2, 0, None),
+               ('rad-', 0)]))
     T.append(('ring opening of a C-C ring bond', [('C', None), ('C', None)],
               [(1, 0, 'single')],
               [('break', 0, 1, None), ('rad+', 0), ('rad+', 1)]))
